@@ -17,6 +17,7 @@ class ClassInfo(object):
     self.bases = d.get('bases', None)        # None = read from the ClassDef
     self.always_true = d.get('truthy', True)
     self.consts = d.get('consts', {})        # class-level constants for extern classes
+    self.final = d.get('final', False)       # no subclasses: dynamic class tag is known for every reference of this type
 
 
 class FuncSpec(object):
